@@ -27,8 +27,8 @@ RUNS = {"quick": 700, "thorough": 20000}
 DEADLINE = {"quick": 240, "thorough": 3300}
 BATCH = {"quick": 3, "thorough": 6}
 DEPTH_BOUND = 150
-EVENTS0 = 6_000_000      # most expensive legitimate call measured: ~6e5 events (refinement through a warm-up chain)
-EVENTS_PER_NODE = 1000    # legitimate tree construction: ~30 events per designed leaf
+EVENTS0 = bm.EVENTS0
+EVENTS_PER_NODE = bm.EVENTS_PER_NODE
 RULE = ("case = one of {machine: config + explicit op list with cache faults; sweep: config + (N, grid dtype, step "
         "divisor, backward); sdeint: solver + SDE spec + (steps, step divisor, Brownian front)} from seeded named PRNG "
         "streams; distinct = distinct hash of the case; non-trivial = at least 100 service calls were monitored (so the "
@@ -140,20 +140,7 @@ class Mon:
         self.cs = cfg["cache_size"]
         self.span = built.dom[1] - built.dom[0]
 
-    def budget(self):
-        ex = self.ex
-        if self.cfg["halfway"]:
-            nd = 0
-        elif self.cfg["dt"] is not None:
-            nd = self.span / (0.8 * xf(self.cfg["dt"]) * ex.c)
-        elif ex.n_len >= 1:
-            nd = self.span / (0.8 * (ex.sum_len / ex.n_len) * ex.c)
-        else:
-            nd = 0
-        return int(EVENTS0 + EVENTS_PER_NODE * min(nd, 4 * bm.BMExec.MAX_DESIGNED))
-
     def call(self, ta, tb, U, A, faults, idx):
-        self.ex.monitor_budget = self.budget()
         res = self.ex.raw(ta, tb, U, A, faults, idx)
         self.calls += 1
         if self.ex.max_depth > DEPTH_BOUND:
@@ -204,7 +191,6 @@ def _run_machine(case, log, probes):
     for i, op in enumerate(case["ops"]):
         td0 = getattr(built.interval, "_tree_dt", None) if built.interval is not None else None
         if op["op"] == "point":
-            mon.ex.monitor_budget = None
             mon.ex.point(xf(op["t"]), op.get("faults"), i)
             continue
         ta, tb = xf(op["ta"]), xf(op["tb"])
@@ -228,16 +214,9 @@ def _run_machine(case, log, probes):
 
 
 def _build_monitored(cfg):
-    st = Streams(1)
-    span = xf(cfg["t1"]) - xf(cfg["t0"])
-    nd = span / (0.8 * xf(cfg["dt"]) * bm.designed_c(cfg)) if cfg["dt"] is not None else 0
-    with seams.CallMonitor(int(EVENTS0 + EVENTS_PER_NODE * min(nd, 4 * bm.BMExec.MAX_DESIGNED))) as m:
-        try:
-            built = bm.build(cfg, st.get("entropy"))
-        except SimBudgetExceeded as e:
-            raise Violation("budget", {"where": "constructor", "msg": str(e)}, "ctor")
-    if m.max_depth > DEPTH_BOUND:
-        raise Violation("depth", {"depth": m.max_depth, "where": "constructor"}, "ctor")
+    built = bm.build(cfg, Streams(1).get("entropy"))
+    if built.ctor_depth > DEPTH_BOUND:
+        raise Violation("depth", {"depth": built.ctor_depth, "where": "constructor"}, "ctor")
     return built
 
 
@@ -326,7 +305,7 @@ def _run_sdeint(case, log, probes):
             probes["cache0"] = 1
         budget = EVENTS0 + 8000 * steps + EVENTS_PER_NODE * 8192
         if front == "interval_cache0":
-            budget += 200_000 * steps  # cache_size=0 recomputes the whole ancestor chain on every request (by design)
+            budget += 50_000 * steps  # cache_size=0 recomputes the whole ancestor chain on every request (by design)
         with seams.CallMonitor(budget) as mon:
             try:
                 with torch.no_grad():
